@@ -66,7 +66,13 @@ def main():
             elif ep == 'epochs':
                 d = fresh().demography
                 r['vec'] = [epoch_repr(e) for e in d.get_epochs(cont)]
-                r['pt'] = [epoch_repr(d.get_epoch(t)) for t in ts]
+                r['pt'] = [epoch_repr(fresh().demography.get_epoch(t)) for t in ts]
+                # the SAME demography object after single lookups that end in late and early epochs: a batch in another order
+                for t in sorted(ts):
+                    d.get_epoch(t)
+                r['vec2'] = [epoch_repr(e) for e in d.get_epochs(as_container(ts[1:] + ts[:1], case['container']))]
+                d.get_epoch(max(ts) + 1.0)
+                r['vec3'] = [epoch_repr(e) for e in d.get_epochs(as_container(sorted(ts, reverse=True), case['container']))]
             r['numpy_inv'] = [int(i) for i in np.argsort(np.argsort(np.array(ts, dtype=float), kind='stable'))]
             r['numpy_sorted'] = [float(x) for x in np.sort(np.array(ts, dtype=float))]
         except Exception as e:
